@@ -603,7 +603,7 @@ OpOut encrypt(const bytes &plain, const bytes &key, const bytes &seed, int cmode
   with_sched(pc, plain.size() / 16 + 2, o, [&] {
     Settings s((char)cmode, (char)hmode, true);
     runcrypt rc(fi, fo, k.data(), s, (u8_t)pc.T);
-    o.ret = rc.execute_encrypt(pc.fsize_hint >= 0 ? (size_t)pc.fsize_hint : plain.size(), sd.data());
+    o.ret = rc.execute_encrypt(pc.fsize_hint >= 0 ? (size_t)pc.fsize_hint : plain.size(), pc.seed_buf ? pc.seed_buf : sd.data());
   });
   finish(o, in, plain, &out);
   return o;
